@@ -90,7 +90,18 @@ type vrfRef struct {
 	sinceRestart int
 }
 
-func vrfNames() []string { return []string{"alpha", "b@x.org"} }
+// vrfNames: 0 = two unrelated names; 1 = two names whose SHA-1 share the first 3 hex digits (same
+// level-1 directory, same lock of the HashLock); 2 = two names sharing the first 6 hex digits (same
+// level-1 and level-2 directories).
+func vrfNames(nset int) []string {
+	switch nset {
+	case 1:
+		return []string{"u47", "u122"}
+	case 2:
+		return []string{"u1636", "u4278"}
+	}
+	return []string{"alpha", "b@x.org"}
+}
 
 func (r *vrfRef) find(box, id string) int {
 	l := r.boxes[box]
@@ -185,7 +196,7 @@ func (r *vrfRef) compare(st storage.Store, box string, now time.Time, steps map[
 // number of times) - compared after every step with a reference model: every mailbox lists the same
 // messages in arrival order with the same ids, metadata, flags, sizes and content; removed, purged,
 // evicted and expired messages stay gone; one deleted event per departure.
-func VerifC10History(k int, mcap int, pre int) {
+func VerifC10History(k int, mcap int, pre int, nset int) {
 	dir := vrf.VfsTempDir()
 	defer os.RemoveAll(dir)
 	host := extension.NewHost()
@@ -203,7 +214,7 @@ func VerifC10History(k int, mcap int, pre int) {
 	now := time.Now()
 	ref := &vrfRef{boxes: map[string][]vrfRefMsg{}, touched: map[string]int{}, issued: map[string][]string{}}
 	steps := map[string]int{}
-	names := vrfNames()
+	names := vrfNames(nset)
 	if pre > 0 {
 		// concrete prelude: one fresh message in each mailbox (steps 8 and 9 for the dates)
 		for i, nm := range names {
